@@ -29,7 +29,7 @@ CONSTANTS
     ListSet,         \* set of sample lists; AllMarker means no list was given
     ProjMode,        \* "none" | "all" (every admissible target) | "both" | "bad" (inadmissible targets too)
     StrictSet,       \* subset of BOOLEAN
-    RecSeqSet,       \* set of record sequences; a row is [gt |-> [sample -> call], bad |-> BOOLEAN]
+    RecSeqSet,       \* set of record sequences; a row is [gt |-> [sample -> call], bad |-> BOOLEAN] (+ optional pos, fmt)
     ResetOn,         \* FALSE: sabotage, accumulators are not reset between records
     ScratchResetOn   \* FALSE: sabotage, the projection scratch index is not zeroed
 
@@ -69,6 +69,11 @@ Contig(r) == IF r <= 2 THEN "chr1" ELSE "chr2"
 Pos(r) == IF "pos" \in DOMAIN recs[r] THEN recs[r].pos ELSE r
 SiteName(r) == Contig(r) \o ":" \o ToString(Pos(r))
 
+(* A record may lack the GT key altogether (FORMAT = DP): then no sample has a call at it.  A row says so with *)
+(* the optional field fmt = "nogt"; its gt entries are then not in the file.                                    *)
+NoGt(row) == "fmt" \in DOMAIN row /\ row.fmt = "nogt"
+CallOf(row, s) == IF NoGt(row) THEN G1(Dot) ELSE row.gt[s]
+
 (******************************* Build *******************************)
 BuildProblems ==
     (IF Len(EffList) = 0 THEN {"empty"} ELSE {})
@@ -103,7 +108,7 @@ Accumulate(row, c, acc) ==
     ELSE LET s == cols[c]
              p == PopOf(EffList, s)
          IN  IF p = 0 THEN Accumulate(row, c + 1, acc)              \* not selected: ignored before classification
-             ELSE LET cl == Classify(row.gt[s])
+             ELSE LET cl == Classify(CallOf(row, s))
                   IN  IF IsAlt(cl)
                       THEN Accumulate(row, c + 1, [acc EXCEPT !.counts[p] = @ + cl.k, !.totals[p] = @ + 2])
                       ELSE IF cl = PloidyError
@@ -240,17 +245,17 @@ Spec == Init /\ [][Next]_vars
 (* different lists (C09) can be stated; the machine's own run uses EffList.               *)
 OutShapeFor(el) == IF proj = NoProj THEN ShapeOf(el) ELSE proj
 SelectedPop(el, j) == {s \in Listed(el) : PopOf(el, s) = j}
-Called(el, row, j) == {s \in SelectedPop(el, j) : IsAlt(ClassifyRef(row.gt[s]))}
+Called(el, row, j) == {s \in SelectedPop(el, j) : IsAlt(ClassifyRef(CallOf(row, s)))}
 Tj(el, row, j) == 2 * Cardinality(Called(el, row, j))
 RECURSIVE SumAlt(_, _)
-SumAlt(row, S) == IF S = {} THEN 0 ELSE LET s == CHOOSE x \in S : TRUE IN ClassifyRef(row.gt[s]).k + SumAlt(row, S \ {s})
+SumAlt(row, S) == IF S = {} THEN 0 ELSE LET s == CHOOSE x \in S : TRUE IN ClassifyRef(CallOf(row, s)).k + SumAlt(row, S \ {s})
 Aj(el, row, j) == SumAlt(row, Called(el, row, j))
 
 RowClassFor(el, row) ==
     IF row.bad THEN "bad"
-    ELSE IF \E s \in Listed(el) : ClassifyRef(row.gt[s]) = PloidyError THEN "ploidy"
+    ELSE IF \E s \in Listed(el) : ClassifyRef(CallOf(row, s)) = PloidyError THEN "ploidy"
     ELSE IF proj = NoProj
-         THEN (IF \A s \in Listed(el) : IsAlt(ClassifyRef(row.gt[s])) THEN "count" ELSE "skip")
+         THEN (IF \A s \in Listed(el) : IsAlt(ClassifyRef(CallOf(row, s))) THEN "count" ELSE "skip")
          ELSE (IF \A j \in 1..NPops(el) : Tj(el, row, j) >= OutShapeFor(el)[j] - 1 THEN "count" ELSE "skip")
 RowClass(row) == RowClassFor(EffList, row)
 
@@ -383,7 +388,7 @@ Emit ==
              proj |-> proj,
              strict |-> strict,
              recs |-> [r \in 1..Len(recs) |-> [contig |-> Contig(r), pos |-> Pos(r), bad |-> recs[r].bad,
-                                               gt |-> GtJson(recs[r])]],
+                                               nogt |-> NoGt(recs[r]), gt |-> GtJson(recs[r])]],
              h |-> h,
              outcome |-> phase,
              diag |-> diag,
